@@ -908,7 +908,12 @@ class World:
         # actual outcome
         if res[0] == 'exc':
             e = res[1]
-            if any(e is x for x in ctx.injected):
+            chain = []
+            x = e
+            while x is not None and len(chain) < 8:
+                chain.append(x)
+                x = x.__cause__ or x.__context__
+            if any(y is x for y in chain for x in ctx.injected):
                 self.count('probe.op_failed_with_injected_error')
                 return                       # an op may fail with the very error injected into it
             name = type(e).__name__
